@@ -170,7 +170,7 @@ PROPS = {
         "partial": "data races are a property of the Go memory model and of third-party code; the Lean model shows only that zlint's own steps perform no shared writes per the extracted footprints; the real scheduler is observed under -race, not proved",
     },
     "C11": {
-        "proofs": ["ZlProofs.Props.C11"],
+        "proofs": ["ZlProofs.Props.C11", "ZlProofs.Props.C05"],  # locality is a statement about lints that are functions of (object, configuration): C05's footprint facts
         "corr": ["config"],
         "search": [],
         "trusted_base": TB_COMMON,
@@ -186,7 +186,7 @@ PROPS = {
         "assumptions": [],
     },
     "C07": {
-        "proofs": ["ZlProofs.Props.C07"],
+        "proofs": ["ZlProofs.Props.C07", "ZlProofs.Props.C05"],  # rests on C05's footprint facts (no lint writes the object or package-level state)
         "corr": [],
         "search": ["c07"],
         "trusted_base": TB_COMMON,
